@@ -311,10 +311,61 @@ fn boxed(cx: &mut Cx, iters: usize, maxl: usize) {
     }
 }
 
+/// Add-back detected ONLY through the top limb.  The multiply-subtract of one quotient digit ends with
+/// `x_hi - carry - borrow`; an over-estimated digit normally shows as a borrow rippling up from the low limbs, but
+/// when the product quo*d has a zero limb right below its top limb the low limbs do not borrow at all and the
+/// over-estimate is visible only because x_hi is exactly one less than the top limb of quo*d.  Construction (3-limb
+/// divisor d = (d2, d1, d0), digit quo odd): choose quo, d1, d0 with lo(quo*d1) + hi(quo*d0) wrapping, solve d2 from
+/// quo*d2 = -(limb 2 of quo*(d1,d0)) mod 2^64 so that limb 2 of quo*d is zero, require d2 normalised; then
+/// x = top(quo*d) * B^3 - 1 - t has top limbs (p3 - 1, MAX, MAX), its 3-by-2 estimate is quo and the true digit quo - 1.
+fn top_limb_only_add_back(r: &mut Rng) -> Option<(Vec<u64>, Vec<u64>)> {
+    for _ in 0..4000 {
+        let quo = r.next() | 1 | TOP;
+        let (d1, d0) = (r.next(), r.next());
+        let c0 = ((quo as u128 * d0 as u128) >> 64) as u64;
+        let lo1 = (quo as u128 * d1 as u128) as u64;
+        if lo1.checked_add(c0).is_some() { continue; }                  // p1 = lo1 + c0 must wrap
+        let low = vmul(&[quo], &[d0, d1]);                              // quo * (d1 B + d0): up to three limbs
+        let h2 = if low.len() > 2 { low[2] } else { 0 };
+        let mut inv = quo;                                              // inverse of quo modulo 2^64 (Newton)
+        for _ in 0..6 { inv = inv.wrapping_mul(2u64.wrapping_sub(quo.wrapping_mul(inv))); }
+        let d2 = h2.wrapping_neg().wrapping_mul(inv);
+        if d2 < TOP { continue; }
+        let d = vec![d0, d1, d2];
+        let p = fit(vmul(&[quo], &d), 4);
+        if p[2] != 0 { continue; }
+        // x = p3 * B^3 - 1 - t, then one more low limb so that the digit above is a second digit of the division
+        let t = r.below(1 << 16) as u64;
+        let x = vsub(&vec![0, 0, 0, p[3]], &[1 + t]);
+        let mut n = vec![r.next()];
+        n.extend(fit(x, 4));
+        return Some((n, d));
+    }
+    None
+}
+
+fn top_limb_only<const N: usize>(cx: &mut Cx, iters: usize) {
+    for _ in 0..iters {
+        let Some((n0, d0)) = top_limb_only_add_back(&mut cx.rng) else { continue };
+        let (n, d) = (fit(n0, N), fit(d0, N));
+        let (a, nzd) = (u::<N>(&n), nz::<N>(&d).unwrap());
+        cx.call(ev("uint.div_rem", N, N, &n, &d, "na"), || { let (q, r) = a.div_rem(&nzd); out_qr(&w(&q), &w(&r)) });
+        cx.call(ev("uint.div_rem_vartime", N, N, &n, &d, "na"), || { let (q, r) = a.div_rem_vartime(&nzd); out_qr(&w(&q), &w(&r)) });
+        cx.call(ev("uint.rem", N, N, &n, &d, "na"), || O::ok().n("r", &w(&a.rem(&nzd))));
+        cx.call(ev("uint.rem_vartime", N, N, &n, &d, "na"), || O::ok().n("r", &w(&a.rem_vartime(&nzd))));
+        cx.call(ev("uint.wrapping_div_vartime", N, N, &n, &d, "na"), || O::ok().n("q", &w(&a.wrapping_div_vartime(&nzd))));
+        let (ba, bd) = (bx(&n), nzb(&d).unwrap());
+        cx.call(ev("boxed.div_rem", N, N, &n, &d, "na").s("pm", "any"), || { let (q, r) = ba.div_rem(&bd); out_qr(&wb(&q), &wb(&r)).i("qp", q.bits_precision() as i64).i("rp", r.bits_precision() as i64) });
+        cx.call(ev("boxed.div_rem_vartime", N, N, &n, &d, "na"), || { let (q, r) = ba.div_rem_vartime(&bd); out_qr(&wb(&q), &wb(&r)).i("qp", q.bits_precision() as i64).i("rp", r.bits_precision() as i64) });
+        cx.call(ev("boxed.rem_vartime", N, N, &n, &d, "na"), || { let r = ba.rem_vartime(&bd); O::ok().n("r", &wb(&r)).i("rp", r.bits_precision() as i64) });
+    }
+}
+
 fn main() {
     let mut cx = Cx::from_args("C02");
     let s = cx.scale;
     if cx.want("same") {
+        top_limb_only::<5>(&mut cx, 12 * s); top_limb_only::<6>(&mut cx, 6 * s); top_limb_only::<8>(&mut cx, 6 * s);
         same_width::<1>(&mut cx, 300 * s);
         same_width::<2>(&mut cx, 300 * s);
         same_width::<3>(&mut cx, 300 * s);
